@@ -33,19 +33,22 @@ type C07BlankCase struct {
 	Wrap      int          `json:"wrap"`       // 0: bare Blank; 1: Blank inside a transforming source without manglers; 2: with a (type-preserving here) set->slice mangler
 	Ops       []C07BlankOp `json:"ops"`
 	DoneAfter bool         `json:"done_after,omitempty"` // finish with Blank.Done under a 1h deadline
+	DoneFirst bool         `json:"done_first,omitempty"` // Blank.Done is called before the SetSource calls (the monitor lives on iff there is another watcher)
 }
 
 func genC07Blank(t *rapid.T) C07BlankCase {
 	c := C07BlankCase{Skip: rapid.Bool().Draw(t, "skip"), Other: rapid.Bool().Draw(t, "other"), ExitFirst: rapid.IntRange(0, 4).Draw(t, "exit_first") == 0}
 	c.Wrap = rapid.IntRange(0, 2).Draw(t, "wrap")
+	c.DoneFirst = !c.ExitFirst && rapid.IntRange(0, 4).Draw(t, "done_first") == 0
+	gone := c.ExitFirst || (c.DoneFirst && !c.Other)
 	g := &genState{}
 	n := rapid.IntRange(1, 5).Draw(t, "ops")
 	for i := 0; i < n; i++ {
 		op := C07BlankOp{L: *g.genLayer(t, 0, genProfile{invalidPct: 25}), Ctx: rapid.SampledFrom([]string{"live", "deadline", "deadline"}).Draw(t, "ctx")}
-		if op.Ctx == "deadline" && !c.ExitFirst {
+		if op.Ctx == "deadline" && !gone {
 			op.Hold = rapid.SampledFrom([]string{"", "verify", "reply"}).Draw(t, "hold")
 		}
-		if c.ExitFirst {
+		if gone {
 			op.Ctx = "deadline"
 		}
 		c.Ops = append(c.Ops, op)
@@ -111,6 +114,14 @@ func runC07Blank(c C07BlankCase) (verdict vrt.Verdict) {
 		if c.ExitFirst {
 			cfgCancel()
 			synctest.Wait()
+		}
+		gone := c.ExitFirst
+		if c.DoneFirst && !c.ExitFirst {
+			// the Blank gives up its watch slot; later calls on it must still
+			// fail or succeed cleanly
+			blank.Done(cfgCtx)
+			synctest.Wait()
+			gone = !c.Other
 		}
 		var cur SimLayer
 		for i := range c.Ops {
@@ -187,10 +198,10 @@ func runC07Blank(c C07BlankCase) (verdict vrt.Verdict) {
 				select {
 				case <-done:
 				case <-time.After(2 * time.Hour):
-					fail("%s: SetSource did not return within two hours although its context had a 1h deadline (monitor exited=%v)", step, c.ExitFirst)
+					fail("%s: SetSource did not return within two hours although its context had a 1h deadline (monitor exited=%v)", step, gone)
 					return
 				}
-				if c.ExitFirst {
+				if gone {
 					if serr == nil {
 						fail("%s: SetSource after the monitor exited returned nil", step)
 						return
@@ -246,14 +257,14 @@ func runC07Blank(c C07BlankCase) (verdict vrt.Verdict) {
 	if msg != "" {
 		return vrt.KeyedViolationf("blank", "%s", msg)
 	}
-	return vrt.OK(heldCount > 0 || c.ExitFirst || rejected > 0, fmt.Sprintf("held=%d", min(heldCount, 3)), fmt.Sprintf("exit_first=%v", c.ExitFirst), fmt.Sprintf("wrap=%d", c.Wrap))
+	return vrt.OK(heldCount > 0 || c.ExitFirst || c.DoneFirst || rejected > 0, fmt.Sprintf("held=%d", min(heldCount, 3)), fmt.Sprintf("exit_first=%v", c.ExitFirst), fmt.Sprintf("done_first=%v", c.DoneFirst), fmt.Sprintf("wrap=%d", c.Wrap))
 }
 
 func TestC08Blank(t *testing.T) {
 	curT = t
 	vrt.Check(t, vrt.Prop[C07BlankCase]{
 		ID: "C08", Name: "blank",
-		Rule: "the histories of C07/blank (1..5 Blank.SetSource calls with live or 1h-deadline contexts against a free, parked or exited monitor, values that verify or not), optionally finished by Blank.Done under a 1h deadline; " +
+		Rule: "the histories of C07/blank (1..5 Blank.SetSource calls with live or 1h-deadline contexts against a free, parked or exited monitor, values that verify or not), optionally preceded by Blank.Done (the Blank gave up its watch slot; the monitor lives on iff another watcher exists) and optionally finished by Blank.Done under a 1h deadline; " +
 			"oracle (C08's clauses): every call returns no later than its own context ends (virtual time), also the calls issued after an earlier call failed, timed out or the monitor exited (a leaked Blank mutex or a missing answer leaves the bubble deadlocked), nothing panics; " +
 			"non-trivial = a call that met a parked or exited monitor, or a rejected value; distinct = distinct case JSON",
 		Assumptions: []string{"SetSource is called after Config, as documented"},
